@@ -272,20 +272,62 @@ class C09(Check):
     # ------------------------------------------------------------------
     K_BOUND = 4     # the numeral of `retained_bounded`
 
+    def reference(self):
+        if getattr(self, '_ref', None) is None:
+            from harness import c09ref
+            self._ref = c09ref.Reference()
+        return self._ref
+
+    def close_reference(self):
+        if getattr(self, '_ref', None) is not None:
+            self._ref.close()
+            self._ref = None
+
     def _oracle(self, spec, hist):
-        """fresh-application comparison of every response of a history"""
+        """every response of a history served by one application in this process, compared with the
+        same request served by a fresh application in a pristine forked process; plus the clauses
+        that need no reference"""
         bad = []
+        refs = self.reference().serve(spec, hist)
         srv = Server(spec)
         for i, h in enumerate(hist):
             got = srv.serve(h)[:3]
-            fresh = Server(spec, fresh_errors=True).serve(h)[:3]
+            fresh = tuple(refs[i][:3])
+            if fresh and fresh[0] == 'EXC':
+                bad.append(('reference-failed', f'reference run raised {fresh[1]}'))
+                break
+            prev = hist[i - 1]['kind'] if i else '-'
+            for key, what in self._consistent(h, got):
+                bad.append((key, f'request {i + 1} ({h["kind"]}) after {prev}: {what}'))
+            if bad:
+                break
             if got != fresh:
                 what = 'status' if got[0] != fresh[0] else 'headers' if got[1] != fresh[1] else 'body'
-                prev = hist[i - 1]['kind'] if i else '-'
                 bad.append((f'carry-over:{what}:{h["kind"]}',
                             f'request {i + 1} ({h["kind"]}) after {prev}: {what} differs from a fresh application: '
                             f'{self._diff(got, fresh)}'))
                 break
+        return bad
+
+    @staticmethod
+    def _consistent(h, got):
+        """clauses about one response that hold whatever came before it"""
+        bad = []
+        st, hd, data = got
+        code = int(st[:3]) if st[:3].isdigit() else 0
+        cls = [v for k, v in hd if k.lower() == 'content-length']
+        bodyless = 100 <= code < 200 or code in (204, 304) or h['req']['method'] == 'HEAD'
+        if cls and not bodyless and h.get('cl_is_framework', True):
+            if len(cls) != 1 or not cls[0].isdigit() or int(cls[0]) != len(data):
+                bad.append(('content-length', f'Content-Length {cls} but {len(data)} body bytes'))
+        ctypes = [v for k, v in hd if k.lower() == 'content-type']
+        if h.get('ctype_is_framework', True) and not bodyless and data:
+            is_html_page = data.startswith(b'<!doctype html><html><head><title>Error: ')
+            is_json_page = data.startswith(b'{"body": ') and data.endswith(b'}')
+            if is_html_page and ctypes != ['text/html; charset=UTF-8']:
+                bad.append(('content-type', f'HTML error page sent as {ctypes}'))
+            if is_json_page and ctypes != ['application/json']:
+                bad.append(('content-type', f'JSON error body sent as {ctypes}'))
         return bad
 
     @staticmethod
@@ -308,14 +350,42 @@ class C09(Check):
         inputs = len([1 for r in keep[1::2] if r() is not None])
         return envs, inputs
 
+    def _growth(self, kind, N, rng):
+        """number of objects the collector tracks after N and after 2N requests of one kind (varied
+        urls / bodies); a leak proportional to the number of requests shows as growth"""
+        g = zoo.Gen(rng)
+        srv = Server(dict(before=[], after=[], errh=[]))
+        rid = [0]
+
+        def burst(k):
+            for _ in range(k):
+                rid[0] += 1
+                srv.serve(gen_hreq(g, rng, rid[0], kind))
+        burst(20)                      # warm-up: caches filled, routes installed
+        burst(N)
+        gc.collect()
+        a = len(gc.get_objects())
+        burst(N)
+        gc.collect()
+        b = len(gc.get_objects())
+        return a, b
+
     def search(self, rng, n, seeds):
+        try:
+            return self._search(rng, n, seeds)
+        finally:
+            self.close_reference()
+
+    def _search(self, rng, n, seeds):
         findings, evals = [], 0
         g = zoo.Gen(rng, safe_headers=True, odd_status=False)
+        g.safe_names = ['X-A', 'X-B', 'ETag', 'x_y', 'Allow', 'Last-Modified']   # Content-Type stays the framework's
         cases = []
         for s in seeds:
             if s.get('kind') == 'history':
                 d = dec(s)
-                cases.append((self._spec(d['app']), [dict(x) for x in d['hist']]))
+                hist = [dict(x, cl_is_framework=False, ctype_is_framework=False) for x in d['hist']]
+                cases.append((self._spec(d['app']), hist))
         for _ in range(n):
             cases.append((fixed_app(g, rng), self.gen_history(g, rng)))
         for spec, hist in cases:
@@ -324,11 +394,22 @@ class C09(Check):
                 bad = zoo.watchdog(lambda: self._oracle(spec, hist), 60)
             except zoo.HangB:
                 bad = [('hang', 'history did not finish within 60 s')]
+                self.close_reference()      # the protocol may be out of step
             for key, what in bad:
                 findings.append(Finding(f'C09:{key}', what, dict(kind='history', app=enc(spec), hist=enc(hist))))
         sizes = [10, 100, 1000] if n < 2000 else [10, 100, 1000, 5000]
-        for kind in ['chunked-garbage', 'chunked-truncated', 'oversize', 'oversize-chunked', 'bad-json', 'request-error',
-                     'crash', 'badpath', 'nf', 'na', 'cookie-then-body-error']:
+        fail_kinds = ['chunked-garbage', 'chunked-truncated', 'oversize', 'oversize-chunked', 'bad-json',
+                      'request-error', 'crash', 'badpath', 'nf', 'na', 'cookie-then-body-error']
+        for kind in fail_kinds + ['ok-cookie', 'raise-resp', 'good-body']:
+            evals += 1
+            N = 150 if n < 2000 else 1000
+            a, b = self._growth(kind, N, rng)
+            if b - a > max(40, N // 10):
+                findings.append(Finding(
+                    f'C09:growth:{kind}',
+                    f'{N} further requests of kind {kind} grew the number of live objects from {a} to {b}',
+                    dict(kind='growth', fail_kind=kind, n=N)))
+        for kind in fail_kinds:
             for N in sizes:
                 evals += 1
                 envs, inputs = self._retention(kind, N, rng)
@@ -347,6 +428,10 @@ class C09(Check):
 
     def replay(self, data):
         i = data['input']
+        if i.get('kind') == 'growth':
+            import random
+            a, b = self._growth(i['fail_kind'], i['n'], random.Random(0))
+            return dict(input=i, objects_after_n=a, objects_after_2n=b, violates=b - a > max(40, i['n'] // 10))
         if i.get('kind') == 'retention':
             import random
             envs, inputs = self._retention(i['fail_kind'], i['n'], random.Random(0))
@@ -354,4 +439,7 @@ class C09(Check):
                         violates=envs > self.K_BOUND or inputs > self.K_BOUND)
         d = dec(i)
         spec, hist = self._spec(d['app']), [dict(x) for x in d['hist']]
-        return dict(input=i, oracle=self._oracle(spec, hist))
+        try:
+            return dict(input=i, oracle=self._oracle(spec, hist))
+        finally:
+            self.close_reference()
